@@ -11,6 +11,7 @@ CONSTANTS
   MaxBatch = 2
   MaxFail = 1
   MaxStops = 1
+  MaxCancel = 0
   Inflights = {1, 2}
   Hws = {2}
   Caps = {2, 99}
@@ -19,6 +20,6 @@ CONSTANTS
   Canonical = TRUE
   StrictOrder = FALSE
 VIEW View
-INVARIANTS TypeOK C29_InflightBound C29_Aligned C29_NoSecondMessage C29_RetryOriginal C29_ChangedPayloadNeverSucceeds C29_Order C41_DoneMeansDrained C41_NothingDiscarded
+INVARIANTS TypeOK C29_InflightBound C29_CanceledOnlyIfCancelled C29_Aligned C29_NoSecondMessage C29_RetryOriginal C29_ChangedPayloadNeverSucceeds C29_Order C41_DoneMeansDrained C41_NothingDiscarded
 PROPERTIES C29_ExactlyOne C41_NoAdmitAfterStop C41_TimeoutKeepsWork
 CHECK_DEADLOCK FALSE
